@@ -250,6 +250,28 @@ def run(ctx):
                     fails.append((kind, "%s: %s" % (label, msg), label))
             finally:
                 t.remove()
+    # one handler at a time: only files with that handler's extension may change (a jar is no business of the zip handler, and so on)
+    for h, ext in (("jar", ".jar"), ("zip", ".zip"), ("gzip", ".gz"), ("ar", ".a"), ("javadoc", ".html"), ("pyc", ".pyc")):
+        for mode in ([], ["-j2"]):
+            if sum(1 for f in fails if f[0] == "hang") >= 2:
+                continue
+            t, may = build_tree(rng)
+            try:
+                may_here = set(m for m in may if m.endswith(ext))
+                if "args/lib.a" in may_here:
+                    may_here.add("outside/hard.bin")
+                before = fh.snapshot(t.root, with_dir_mtime=True)
+                rc, out = fh.run_cli(["--handler", h] + mode + [t.path("args")], epoch=samples.EPOCH, timeout=60)
+                after = fh.snapshot(t.root, with_dir_mtime=True)
+                nruns += 1
+                label = "--handler %s %s" % (h, " ".join(mode))
+                if rc == 124:
+                    fails.append(("hang", "%s: did not terminate" % label, label))
+                    continue
+                for kind, msg in judge(before, after, may_here):
+                    fails.append((kind, "%s: %s" % (label, msg), label))
+            finally:
+                t.remove()
     nb = brp_matrix(ctx, fails, mism) if True else 0
     ctx.oblige("correspondence[walk]: counters and final tree of the serial runs = model (Walk.walk on the visited entries); brp_check = model on %d combinations" % nb,
                not mism, "; ".join("%s: %s" % x for x in mism[:4]))
